@@ -54,7 +54,7 @@ def emit(c, o):
     blocks = max(2, (len(c["state"]) * 40) // 624 + 2)
     gc = "{| c14_ns := %s; c14_nc := %s; c14_sm := %s; c14_mode := %s; c14_seed := %s; c14_blocks := %s |}" % (
         g_nat(ns), g_nat(n), g_list([g_float(v) for v in c["state"]]), MODE[effective_mode(c)], g_z(c["seed"]), g_nat(blocks))
-    return "(%s)" % gc, g_list([g_float(v) for v in o["sample0"]])
+    return "(%s)" % gc, "(%s, %s)" % (g_list([g_float(v) for v in o["sample0"]]), g_list([g_float(v) for v in o["again"]]))
 
 
 def oracle(it):
